@@ -234,6 +234,16 @@ def replay_behaviours(ctx, prop, quick):
     hists = res.emitted[:want]
     if not hists:
         ctx.machinery("TLC emitted no behaviours for replay")
+    # ... plus EVERY behaviour of the specification up to a small length (breadth-first search with
+    # the history in the state, so that each path is a distinct state): exhaustive small scope on
+    # the real code, every choice among eligible blocked pullers included
+    klen = 3 if quick else 4
+    bfs = tlc.run(ctx, "WorkQSim", sim_cfg(prop, klen), name="bfs_replay", workers=ctx.ncpu, timeout=3000)
+    if not bfs.ok:
+        ctx.machinery("exhaustive behaviour enumeration failed: %s %s\n%s" % (bfs.kind, bfs.name, bfs.out[-1500:]))
+    n_sim = len(hists)
+    hists = hists + bfs.emitted
+    ctx.set_cover(replay_exhaustive_length=klen, replay_exhaustive_behaviours=len(bfs.emitted), replay_simulated_behaviours=n_sim)
     items = list(enumerate(hists))
     pool = multiprocessing.get_context("fork").Pool(ctx.ncpu)
     try:
